@@ -12,7 +12,7 @@ func TestVerifC04Fetch(t *testing.T) {
 	r := verifkit.Start(t, "C04", "fetch")
 	defer r.Finish("case = a log built through the real handler (3 partitions over 2 topics, 4-13 well-formed batches of 1-5 records with unique values; modes: flush-on-ack (one segment per produce, optional restart), buffered acks=1 with batch-count flush threshold (multi-batch segments + unflushed tail served from the write buffer), mid-flush (producers and a fetcher under the deterministic scheduler, reads while uploads are held)) x index interval {1,3,100} x cache {off, 1MiB, 700B} x read-ahead {0,2}; every offset of every partition is then read with byte limits {1,60,61,62,100,150,400,5000,1MiB,0} through handler Fetch and PartitionLog.Read and judged against the reference log (progress oracle); distinct = configuration signature x case; non-trivial = case judged > 20 reads",
 		"reference log = acknowledged batches in offset order with the acknowledged base patched in", "reads are sequential except in mid-flush mode")
-	n := r.N(260, 4000)
+	n := r.N(260, 20000)
 	for ci := 0; ci < n; ci++ {
 		rng := r.Rand(ci)
 		sig, nt := runFetchCase(t, r, "C04", rng, ci)
